@@ -403,8 +403,14 @@ fn string_from_utf8''')]},
      'edits': [(VM, "        let closure = self.new_root_obj_closure(function.as_gc(), module);\n        self.push(Value::ObjClosure(closure.as_gc()));\n\n        self.call_value(self.peek(0), 0)?;", "        let closure = self.new_root_obj_closure(function.as_gc(), self.active_module);\n        self.push(Value::ObjClosure(closure.as_gc()));\n\n        self.call_value(self.peek(0), 0)?;")]},
     {'name': 'M3 loader failure ends the run instead of raising', 'prop': 'C14', 'expect': 'start_import_impl',
      'edits': [(VM, "            Ok(s) => s,\n            Err(e) => {\n                return self.try_handle_error(e);\n            }\n        };\n\n        let function = match compiler::compile", "            Ok(s) => s,\n            Err(e) => {\n                return Err(e);\n            }\n        };\n\n        let function = match compiler::compile")]},
-    {'name': 'M3 compile failure of a module reported as RuntimeError', 'prop': 'C14', 'expect': 'M3 / errors built in start_import_impl',
+    {'name': 'M3 compile failure of a module reported as RuntimeError', 'prop': 'C14', 'expect': 'M3 / errors built for a cyclic import or a module that does not compile are ImportError',
      'edits': [(VM, 'let mut error = error!(ErrorKind::ImportError, "Error compiling module:");', 'let mut error = error!(ErrorKind::RuntimeError, "Error compiling module:");')]},
+    {'name': 'X19 unwind_stack no longer drops the parked return', 'prop': 'C08', 'expect': 'X19 / unwind_stack leaves the parked return',
+     'edits': [(VM, "            // called, and the return stays pending.)\n            self.active_fiber_mut().take_return_data();", "            // called, and the return stays pending.)\n            let _ = self.active_fiber().return_handlers;")]},
+    {'name': 'X19 parked return dropped on every delivery', 'prop': 'C08', 'expect': 'X19 / unwind_stack drops return_ip, return_value under a test',
+     'edits': [(VM, "        if self.active_fiber().exc_handlers.len() < self.active_fiber().return_handlers {", "        {")]},
+    {'name': 'X19 the test reads the frame depth instead of what JumpFinally recorded', 'prop': 'C08', 'expect': 'X19 / the test reads what JumpFinally recorded',
+     'edits': [(VM, "        if self.active_fiber().exc_handlers.len() < self.active_fiber().return_handlers {", "        if self.active_fiber().exc_handlers.len() < self.active_fiber().frames.len() {")]},
     # ---- C03 ----------------------------------------------------------------------------------------
     {'name': 'T1 parse returns the function when only warnings-like errors were recorded', 'prop': 'C03', 'expect': 'T1 / parse: Ok only behind',
      'edits': [(COMP, "        let had_error = !self.errors.borrow().is_empty();\n        if had_error {", "        let had_error = self.errors.borrow().len() > 1;\n        if had_error {")]},
